@@ -244,3 +244,109 @@ Fixpoint go_node_run (n : node) (h : list op) : option node :=
   | [] => Some n
   | o :: r => match go_node_step n o with Some (n', _) => go_node_run n' r | None => None end
   end.
+
+(* ================================================================================================ *)
+(* The application with the WHOLE fee decorators generated: x/wrkchain/ante and x/beacon/ante AnteHandle           *)
+(* (GeneratedWrkchainAnte.v, GeneratedBeaconAnte.v: transaction detection, exact-fee check, funds check,            *)
+(* max-slots check and their sequencing by IsCheckTx / simulate) and x/enterprise/ante AnteHandle                   *)
+(* (GeneratedEnterpriseAnte.v: the guard around UnlockCoinsForFees).  The definitions above are left as they are;    *)
+(* proofs/GeneratedAnteHandleEq.v proves the two applications equal.                                                *)
+(* ================================================================================================ *)
+From MC Require model.AnteWorld GeneratedWrkchainAnte GeneratedBeaconAnte GeneratedEnterpriseAnte
+  model.EnterpriseAnteGenSpec.
+
+(* the worlds of the two registry decorators (model/AnteWorld.v): block time, CheckTx flag, bank, enterprise state and the
+   module's own registry state *)
+Definition wrk_aworld (check : bool) (a : app) : AnteWorld.aworld :=
+  AnteWorld.mk_aworld (a_now a) check (a_bank a) (a_ent a) (a_wrk a).
+Definition bcn_aworld (check : bool) (a : app) : AnteWorld.aworld :=
+  AnteWorld.mk_aworld (a_now a) check (a_bank a) (a_ent a) (a_bcn a).
+
+(* the one code that differs between lib/GoSdk.v and model/App.v: sdk.NewCoin's "negative coin amount"
+   (GO_PANIC_NEGCOIN = 4) is the model's PANIC_NEGFEE = 55.  Unlike [as_fee_panic] every other panic keeps its code (the
+   funds check's nil-coin panic is 22 on both sides). *)
+Definition as_negcoin_panic (o : outcome unit) : outcome unit :=
+  match o with Panic c => Panic (if c =? GO_PANIC_NEGCOIN then PANIC_NEGFEE else c) | _ => o end.
+
+Definition go_wrk_ante_full (check : bool) (a : app) (t : tx) : outcome unit :=
+  as_negcoin_panic (GeneratedWrkchainAnte.go_AnteHandle (wrk_aworld check a) (WrkchainAnteGenSpec.gotx_of t) false).
+Definition go_bcn_ante_full (check : bool) (a : app) (t : tx) : outcome unit :=
+  as_negcoin_panic (GeneratedBeaconAnte.go_AnteHandle (bcn_aworld check a) (BeaconAnteGenSpec.gotx_of t) false).
+
+(* x/enterprise/ante: the generated AnteHandle on the enterprise world, its result put back into the application *)
+Definition go_unlock_ante_full (a : app) (t : tx) : outcome app :=
+  do (w', _) <- GeneratedEnterpriseAnte.go_AnteHandle (ent_world_of a) (EnterpriseAnteGenSpec.ent_gotx_of t) false;
+  Ok (with_ent a (EnterpriseKeeperPrims.ew_bank w') (EnterpriseKeeperPrims.ew_ent w')).
+
+Definition go_ante_full (check : bool) (a : app) (t : tx) : outcome app :=
+  if negb (coins_valid (tx_fee t)) then Err ERR_APP else
+  do _ <- go_wrk_ante_full check a t;
+  do _ <- go_bcn_ante_full check a t;
+  do a1 <- go_unlock_ante_full a t;
+  do a2 <- deduct_fee a1 t;
+  if tx_sig_ok t then Ok a2 else Err ERR_BAD_SIG.
+
+Definition go_deliver_tx_full (a : app) (t : tx) : app * tx_result :=
+  match go_validate_all t with
+  | Err c => (a, TxRejected c)
+  | Panic c => (a, TxPanicked 0 c)
+  | Ok _ =>
+      match go_ante_full false a t with
+      | Err c => (a, TxRejected c)
+      | Panic c => (a, TxPanicked 1 c)
+      | Ok a1 =>
+          match go_exec_all a1 t with
+          | Ok a2 => (a2, TxOk)
+          | Err c => (a1, TxFailed c)
+          | Panic c => (a1, TxPanicked 2 c)
+          end
+      end
+  end.
+
+Definition go_check_tx_full (a : app) (t : tx) : app * tx_result :=
+  match go_validate_all t with
+  | Err c => (a, TxRejected c)
+  | Panic c => (a, TxPanicked 0 c)
+  | Ok _ =>
+      match go_ante_full true a t with
+      | Err c => (a, TxRejected c)
+      | Panic c => (a, TxPanicked 1 c)
+      | Ok a1 => (a1, TxOk)
+      end
+  end.
+
+Definition go_node_step_full (n : node) (o : op) : option (node * option tx_result) :=
+  match o with
+  | OpBegin now =>
+      match go_begin_block (n_committed n) now with
+      | Some a => Some ({| n_committed := n_committed n; n_deliver := Some a; n_check := n_check n |}, None)
+      | None => None
+      end
+  | OpDeliver t =>
+      match n_deliver n with
+      | Some a => let '(a', r) := go_deliver_tx_full a t in
+                  Some ({| n_committed := n_committed n; n_deliver := Some a'; n_check := n_check n |}, Some r)
+      | None => None
+      end
+  | OpCheck t =>
+      let '(c', r) := go_check_tx_full (n_check n) t in
+      Some ({| n_committed := n_committed n; n_deliver := n_deliver n; n_check := c' |}, Some r)
+  | OpEnd props =>
+      match n_deliver n with
+      | Some a => Some ({| n_committed := n_committed n; n_deliver := Some (go_end_block a props); n_check := n_check n |}, None)
+      | None => None
+      end
+  | OpCommit =>
+      match n_deliver n with
+      | Some a => Some ({| n_committed := a; n_deliver := None; n_check := a |}, None)
+      | None => None
+      end
+  | OpCrash =>
+      Some ({| n_committed := n_committed n; n_deliver := None; n_check := n_committed n |}, None)
+  end.
+
+Fixpoint go_node_run_full (n : node) (h : list op) : option node :=
+  match h with
+  | [] => Some n
+  | o :: r => match go_node_step_full n o with Some (n', _) => go_node_run_full n' r | None => None end
+  end.
